@@ -34,7 +34,7 @@ ASSUMPTIONS = [
 ]
 TIMEOUT = {"quick": 400, "thorough": 2400}
 REQUIRED = {"ledger:events": 200000, "ledger:downhill": 60000, "ledger:uphill": 30000, "ledger:configs": 14, "dist:configs": 10,
-            "proposal:kernel_tests": 12, "ensemble:stretch_factors": 5000, "hmc:attempts": 2000, "stat_tests": 60}
+            "proposal:kernel_tests": 12, "ensemble:stretch_factors": 5000, "hmc:attempts": 2000, "stat_tests": 60, "pt:exchange_decisions": 300}
 
 Z1 = 3.89   # two-sided p = 1e-4
 Z2 = 5.33   # two-sided p = 1e-7
@@ -82,6 +82,8 @@ def jobs(tier, seed):
     D("hmc", d=2, target="normal", T=2.5, mass="vector", steps=2500 if q else 12000)
     D("hmc", d=2, target="normal", T=1.0, mass="matrix", steps=2500 if q else 12000)
     D("hmc", d=1, target="truncnorm", T=1.0, mass="vector", bounded=True, steps=2500 if q else 12000)
+    D("hmc", d=1, target="truncnorm", T=7.0, mass="vector", bounded=True, steps=2500 if q else 12000)
+    D("hmc", d=2, target="truncnorm", T=2.5, mass="default", bounded=True, steps=2500 if q else 12000)
     D("ensemble", d=2, target="normal", alpha=2.0, steps=1500 if q else 8000)
     D("ensemble", d=3, target="normal", alpha=3.0, steps=1200 if q else 6000)
     if not q:
@@ -96,6 +98,9 @@ def jobs(tier, seed):
         D("pca", d=1, target="normal", T=1.0, wf=0.5)
         D("hmc", d=3, target="normal", T=7.0, mass="scalar", steps=10000)
     out = [{"name": f"{c['mode']}-{c['kind']}-{i}", "seed": seed, "i": i, **c} for i, c in enumerate(cfgs)]
+    for k, (n_ch, ladder) in enumerate([(2, "wide"), (3, "tight"), (4, "wide")] + ([] if q else [(5, "tight"), (3, "wide")])):
+        out.append({"name": f"pt-exchange-{k}", "seed": seed, "i": len(out), "mode": "pt", "kind": "tempering", "n": n_ch, "ladder": ladder,
+                    "rounds": 150 if q else 700})
     out.append({"name": "proposal-kernels", "seed": seed, "i": len(out), "mode": "proposal", "kind": "parameter", "n": 40000 if q else 200000})
     return out
 
@@ -158,8 +163,8 @@ def build_chain(job, rng, trace, target, scale, law, seed):
         start = np.abs(start) + 0.1
     lo, hi = None, None
     if job.get("bounded") or job.get("limits") == "boundaries":
-        lo = centre - scale * rng.uniform(0.3, 1.5, size=d)
-        hi = centre + scale * rng.uniform(0.3, 1.5, size=d)
+        lo = centre - scale * np.sqrt(T) * rng.uniform(0.4, 1.8, size=d)
+        hi = centre + scale * np.sqrt(T) * rng.uniform(0.4, 1.8, size=d)
         start = lo + (hi - lo) * rng.uniform(0.2, 0.8, size=d)
     info = {"lo": lo, "hi": hi}
     if kind in ("gibbs", "metropolis", "pca"):
@@ -354,6 +359,9 @@ def run_job(job, rec):
     from vmon.contracts import attach
 
     rng = mk_rng(job["seed"], "C01", job["i"], job["name"])
+    if job["mode"] == "pt":
+        # (no class-level recorders here: the chains must stay picklable to cross the pipes)
+        return tempering_exchanges(job, rec, rng)
     owner_log, leap_log = [], []
     attach(Parameter, "submit_accept_prob", pre=lambda self, p: owner_log.append((id(self), p)))
 
@@ -376,7 +384,6 @@ def run_job(job, rec):
 
     if job["mode"] == "proposal":
         return proposal_kernels(job, rec, rng)
-
     n1 = job["steps"]
     res = guarded(run_config, job, rng, n1, rec, hooks)
     if isinstance(res, Raised):
@@ -589,3 +596,55 @@ def proposal_kernels(job, rec, rng):
                 return st.ks_uniform_p(sst.norm.cdf((y - a) / sigma))
 
             st.two_stage(rec, "proposal-scale", pv2, n, "standard proposal increments are not N(0, sigma^2)", ctx)
+
+
+# ------------------------------------------------------------------ exchange decisions of chains run under parallel tempering
+def tempering_exchanges(job, rec, rng):
+    """Every proposed exchange of a real ParallelTempering run is one Metropolis-Hastings decision: probability
+    min(1, exp((1/Ti - 1/Tj)(Lj - Li))) with L the untempered log-density of each chain's current point
+    (harness's evaluation, from snapshots taken around every swap; machinery shared with C08)."""
+    from vmon.props import c08
+
+    def spec_for(seed_shift):
+        r = mk_rng(job["seed"], "C01-pt", job["i"], seed_shift)
+        sp = c08.make_spec(r, 0, 0)
+        n = job["n"]
+        fac = r.uniform(1.2, 1.8, size=n - 1) if job["ladder"] == "tight" else r.uniform(2.5, 6.0, size=n - 1)
+        sp.update(n=n, kinds=[str(r.choice(["gibbs", "pca", "hmc"]))] * n, ladder=job["ladder"],
+                  temps=[float(t) for t in np.cumprod([1.0] + list(fac))], starts=(r.normal(size=(n, sp["d"])) * 1.5).tolist(),
+                  seeds=[int(v) for v in r.integers(2**31, size=n + 2)], display=False)
+        return sp
+
+    ctx = {k: v for k, v in job.items() if k != "seed"}
+    rec.context = ctx
+    rec.count("pt:configs")
+    rec.case(digest("pt", job["n"], job["ladder"]), nontrivial=True)
+
+    def events(stage):
+        sp = spec_for(stage)
+        sp["program"] = [("take_steps", 2), ("swap", 0)] * (job["rounds"] * (4 if stage else 1))
+        o = c08.execute(sp, {"name": "unperturbed"}, rec, monitor=False, ctx=ctx)
+        if o.error:
+            rec.violation("raised", f"tempering run failed: {o.error}", ctx)
+        return o.exchange_events
+
+    ev = events(0)
+    up = [(p, a) for p, a in ev if p >= 1.0]
+    down = [(p, a) for p, a in ev if p < 1.0]
+    rec.count("pt:exchange_decisions", len(ev))
+    rec.count("ledger:events", len(ev))
+    rec.count("ledger:uphill", len(up))
+    rec.count("ledger:downhill", len(down))
+    rec.check(all(a for _, a in up), "certain-exchange-rejected", f"{sum(1 for _, a in up if not a)} exchanges with probability one were not made", ctx)
+
+    def pv(n, stage):
+        e = down if stage == 0 else [(p, a) for p, a in events(1) if p < 1.0]
+        if len(e) < 30:
+            return 1.0
+        p = np.array([x[0] for x in e])
+        a = np.array([1.0 if x[1] else 0.0 for x in e])
+        v = (p * (1 - p)).sum()
+        return st.z_to_p((a - p).sum() / np.sqrt(v)) if v > 1 else 1.0
+
+    st.two_stage(rec, "exchange-miscalibrated", pv, len(down),
+                 lambda: f"{job['name']}: exchanges between chains at different temperatures are not accepted with min(1, exp((1/Ti - 1/Tj)(Lj - Li)))", ctx)
